@@ -64,9 +64,17 @@ def _enc_kind(node):
 def extract(src, problems):
     v = dict(DEFAULTS)
 
-    def need(cond, what):
+    soft = v.setdefault('_soft', [])
+
+    def need(cond, what, covered=False):
+        # covered=True: the constant is also spelled out by the regenerated program (harness/c09/translate.py) and
+        # compared with the model by the generated-equals-model theorems, so a matcher miss keeps the default and
+        # is only noted; everything else is fail-closed
         if not cond:
-            problems.append('fact unrecognised: ' + what)
+            if covered:
+                soft.append(what)
+            else:
+                problems.append('fact unrecognised: ' + what)
         return cond
 
     try:
@@ -86,32 +94,33 @@ def extract(src, problems):
                         and _is_self_attr(t.values[0], 'timeout') and isinstance(t.values[1], ast.Compare):
                     c = t.values[1]
                     if len(c.ops) == 1 and isinstance(c.left, ast.BinOp) and isinstance(c.left.op, ast.Add) \
-                            and _name(c.left.left, 'timestamp') and _is_self_attr(c.left.right, 'timeout') \
-                            and _name(c.comparators[0], 'now') and type(c.ops[0]) in CMP:
+                            and isinstance(c.left.left, ast.Name) and _is_self_attr(c.left.right, 'timeout') \
+                            and isinstance(c.comparators[0], ast.Name) and type(c.ops[0]) in CMP:
                         v['timeout_cmp'] = CMP[type(c.ops[0])]
                         found_t = True
                 if isinstance(t, ast.Compare) and len(t.ops) == 1 and isinstance(t.left, ast.BinOp) \
-                        and isinstance(t.left.op, ast.Sub) and _name(t.left.left, 'now') \
-                        and _name(t.left.right, 'timestamp') and _is_self_attr(t.comparators[0], 'reissue_time') \
+                        and isinstance(t.left.op, ast.Sub) and isinstance(t.left.left, ast.Name) \
+                        and isinstance(t.left.right, ast.Name) and _is_self_attr(t.comparators[0], 'reissue_time') \
                         and type(t.ops[0]) in CMP:
                     v['reissue_cmp'] = CMP[type(t.ops[0])]
                     found_r = True
-            if isinstance(n, ast.Assign) and len(n.targets) == 1:
-                if _name(n.targets[0], 'userid_typename') and isinstance(n.value, ast.Constant):
-                    tn = n.value.value
-                if _name(n.targets[0], 'remote_addr') and isinstance(n.value, ast.Constant):
-                    ips = n.value.value
-                if _name(n.targets[0], 'user_data_info') and ast.unparse(n.value).startswith('user_data.split('):
+            if isinstance(n, ast.Assign) and len(n.targets) == 1 and isinstance(n.targets[0], ast.Name):
+                if isinstance(n.value, ast.Constant) and isinstance(n.value.value, str):
+                    if re.fullmatch(r'\d+(\.\d+){3}', n.value.value):
+                        ips = n.value.value
+                    elif n.value.value.endswith(':'):
+                        tn = n.value.value
+                if isinstance(n.value, ast.Call) and isinstance(n.value.func, ast.Attribute) and n.value.func.attr == 'split':
                     a = n.value.args
                     if len(a) == 1 and isinstance(a[0], ast.Constant):
                         pipes = a[0].value
-        need(found_t, 'identify: timeout test `self.timeout and (timestamp + self.timeout) OP now`')
-        need(found_r, 'identify: reissue test `(now - timestamp) OP self.reissue_time`')
-        if need(isinstance(tn, str) and tn, 'identify: userid_typename literal'):
+        need(found_t, 'identify: timeout test `self.timeout and (timestamp + self.timeout) OP now`', covered=True)
+        need(found_r, 'identify: reissue test `(now - timestamp) OP self.reissue_time`', covered=True)
+        if need(isinstance(tn, str) and tn, 'identify: userid_typename literal', covered=True):
             v['userid_typename'] = tn
-        if need(isinstance(ips, str) and ips, 'identify: default remote_addr literal'):
+        if need(isinstance(ips, str) and ips, 'identify: default remote_addr literal', covered=True):
             v['default_ip'] = ips
-        if need(isinstance(pipes, str) and len(pipes) == 1, "identify: user_data.split('|')"):
+        if need(isinstance(pipes, str) and len(pipes) == 1, "identify: user_data.split('|')", covered=True):
             v['pipe'] = pipes
     # ---- remember: same default ip, 'userid_type:%s'
     rem = m.find('AuthTktCookieHelper.remember')
@@ -119,14 +128,14 @@ def extract(src, problems):
         ip2 = fmt = None
         for n in ast.walk(rem):
             if isinstance(n, ast.Assign) and len(n.targets) == 1:
-                if _name(n.targets[0], 'remote_addr') and isinstance(n.value, ast.Constant):
+                if isinstance(n.value, ast.Constant) and isinstance(n.value.value, str) \
+                        and re.fullmatch(r'\d+(\.\d+){3}', n.value.value):
                     ip2 = n.value.value
-                if _name(n.targets[0], 'user_data') and isinstance(n.value, ast.BinOp) \
-                        and isinstance(n.value.op, ast.Mod) and isinstance(n.value.left, ast.Constant) \
-                        and _name(n.value.right, 'encoding'):
+                if isinstance(n.value, ast.BinOp) and isinstance(n.value.op, ast.Mod) \
+                        and isinstance(n.value.left, ast.Constant) and isinstance(n.value.right, ast.Name):
                     fmt = n.value.left.value
-        need(ip2 == v['default_ip'], 'remember: default remote_addr differs from identify')
-        need(fmt == v['userid_typename'] + '%s', "remember: user_data = 'userid_type:%s' % encoding")
+        need(ip2 == v['default_ip'], 'remember: default remote_addr differs from identify', covered=True)
+        need(fmt == v['userid_typename'] + '%s', "remember: user_data = 'userid_type:%s' % encoding", covered=True)
     # ---- cookie_value f-string
     cv = m.find('AuthTicket.cookie_value')
     ok = False
@@ -139,9 +148,9 @@ def extract(src, problems):
                     v['ts_width'] = int(mm.group(1) or 0)
                     ok = True
         j = [n for n in ast.walk(cv) if isinstance(n, ast.Call) and isinstance(n.func, ast.Name) and n.func.id == 'quote']
-        if need(len(j) == 1 and len(j[0].args) == 1 and not j[0].keywords, 'cookie_value: quote(self.userid) with default safe'):
+        if need(len(j) == 1 and len(j[0].args) == 1 and not j[0].keywords, 'cookie_value: quote(self.userid) with default safe', covered=True):
             v['quote_safe'] = '/'
-    need(ok, "cookie_value: f'{int(self.time):0Nx}' timestamp format")
+    need(ok, "cookie_value: f'{int(self.time):0Nx}' timestamp format", covered=True)
     init = m.find('AuthTicket.__init__')
     okj = False
     if init is not None:
@@ -153,20 +162,22 @@ def extract(src, problems):
                         and len(c.func.value.value) == 1:
                     v['comma'] = c.func.value.value
                     okj = True
-    need(okj, "AuthTicket.__init__: self.tokens = ','.join(tokens)")
+    need(okj, "AuthTicket.__init__: self.tokens = ','.join(tokens)", covered=True)
     # ---- parse_ticket
     pt = m.find('parse_ticket')
     if need(pt is not None, 'parse_ticket missing'):
-        mult = base = strip = None
+        mult = base = strip = dname = None
         widths, bangs, commas = set(), set(), set()
         for n in ast.walk(pt):
-            if isinstance(n, ast.Assign) and _name(n.targets[0], 'digest_size') and isinstance(n.value, ast.BinOp) \
+            if isinstance(n, ast.Assign) and isinstance(n.targets[0], ast.Name) and isinstance(n.value, ast.BinOp) \
                     and isinstance(n.value.op, ast.Mult) and isinstance(n.value.right, ast.Constant) \
-                    and ast.unparse(n.value.left) == 'hashlib.new(hashalg).digest_size':
+                    and isinstance(n.value.left, ast.Attribute) and n.value.left.attr == 'digest_size' \
+                    and ast.unparse(n.value.left.value).startswith('hashlib.new('):
                 mult = n.value.right.value
-            if isinstance(n, ast.BinOp) and isinstance(n.op, ast.Add) and _name(n.left, 'digest_size') \
-                    and isinstance(n.right, ast.Constant):
-                widths.add(n.right.value)
+                dname = n.targets[0].id
+            if isinstance(n, ast.BinOp) and isinstance(n.op, ast.Add) and isinstance(n.left, ast.Name) \
+                    and isinstance(n.right, ast.Constant) and isinstance(n.right.value, int):
+                widths.add((n.left.id, n.right.value))
             if isinstance(n, ast.Call) and isinstance(n.func, ast.Name) and n.func.id == 'int' and len(n.args) == 2 \
                     and isinstance(n.args[1], ast.Constant):
                 base = n.args[1].value
@@ -182,17 +193,18 @@ def extract(src, problems):
             if isinstance(n, ast.Compare) and len(n.ops) == 1 and isinstance(n.ops[0], ast.In) \
                     and isinstance(n.left, ast.Constant):
                 bangs.add(n.left.value)
-        if need(isinstance(mult, int) and mult >= 0, 'parse_ticket: digest_size = hashlib.new(hashalg).digest_size * K'):
+        if need(isinstance(mult, int) and mult >= 0, 'parse_ticket: digest_size = hashlib.new(hashalg).digest_size * K', covered=True):
             v['digest_mult'] = mult
-        if need(len(widths) == 1 and all(isinstance(w, int) and w >= 0 for w in widths), 'parse_ticket: digest_size + W slices'):
+        widths = set(w for nm, w in widths if nm == dname)
+        if need(len(widths) == 1 and all(isinstance(w, int) and w >= 0 for w in widths), 'parse_ticket: digest_size + W slices', covered=True):
             v['ts_field'] = widths.pop()
-        if need(base in (10, 16), 'parse_ticket: int(..., 16)'):
+        if need(base in (10, 16), 'parse_ticket: int(..., 16)', covered=True):
             v['ts_base'] = base
-        if need(isinstance(strip, str) and len(strip) == 1, "parse_ticket: strip('\"')"):
+        if need(isinstance(strip, str) and len(strip) == 1, "parse_ticket: strip('\"')", covered=True):
             v['strip_ch'] = strip
-        if need(len(bangs) == 1 and all(isinstance(b, str) and len(b) == 1 for b in bangs), "parse_ticket: split('!', 1)"):
+        if need(len(bangs) == 1 and all(isinstance(b, str) and len(b) == 1 for b in bangs), "parse_ticket: split('!', 1)", covered=True):
             v['bang'] = bangs.pop()
-        need(commas == {v['comma']}, "parse_ticket: tokens.split(',') matches the join separator")
+        need(commas == {v['comma']}, "parse_ticket: tokens.split(',') matches the join separator", covered=True)
     # ---- VALID_TOKEN
     try:
         e = m.const_expr('VALID_TOKEN')
@@ -238,7 +250,7 @@ def extract(src, problems):
 
 def emit(v):
     t = F.coq_text
-    lines = [F.HEADER, 'Require Import Verif.Lib.C09Base.\n']
+    lines = [F.HEADER, 'Require Import Verif.Lib.Text Verif.Lib.Percent Verif.Lib.Utf8 Verif.Lib.C09Base Verif.Model.C09_base.\n']
     lines.append('Definition timeout_cmp : cmpop := %s.\n' % v['timeout_cmp'])
     lines.append('Definition reissue_cmp : cmpop := %s.\n' % v['reissue_cmp'])
     for k in ('ts_width', 'ts_field', 'digest_mult'):
@@ -258,21 +270,26 @@ def emit(v):
     return ''.join(lines)
 
 
+# pinned: only what is NOT translated (harness/c09/translate.py regenerates the rest on every run)
 PINS = {
-    AUTH: ['b64encode', 'b64decode', 'AuthTicket.__init__', 'AuthTicket.digest', 'AuthTicket.cookie_value',
-           'parse_ticket', 'calculate_digest', 'encode_ip_timestamp', 'AuthTktCookieHelper.__init__',
-           'AuthTktCookieHelper._get_cookies', 'AuthTktCookieHelper.identify', 'AuthTktCookieHelper.forget',
-           'AuthTktCookieHelper.remember'],
+    AUTH: ['b64encode', 'b64decode', 'AuthTicket.__init__', 'AuthTktCookieHelper.__init__', 'BadTicket'],
     'pyramid/util.py': ['strings_differ', 'text_', 'bytes_', 'ascii_'],
 }
 
 
 def facts(src):
+    from harness.c09 import translate
     problems = []
     summary = F.check_shapes(src, os.path.join(HERE, 'pins.json'), problems)
     v = extract(src, problems)
+    soft = v.pop('_soft', [])
     summary.update({k: (val if not isinstance(val, list) or len(val) < 8 else '%d items' % len(val)) for k, val in v.items()})
-    return {'coq': emit(v), 'summary': summary, 'problems': problems}
+    if soft:
+        summary['facts kept at their default (covered by the regenerated program)'] = soft
+    gen, tproblems, tsummary, _ = translate.translate_tree(src)
+    problems += tproblems
+    summary.update(tsummary)
+    return {'coq': emit(v) + gen, 'summary': summary, 'problems': problems}
 
 
 if __name__ == '__main__':
